@@ -900,3 +900,4 @@ EXPLANATION += (' Round 7: ' + "ADJUST/reversed-rejected, ADJUST/no-negative-eve
 EXPLANATION += (' Rounds 9-10: ' + 'STRETCH/unscaled-exit-only-for-factor-one (must-pass-through of the total_time scaling); REPEAT/carry-after-break shared from C02.')
 EXPLANATION += (' Round 11: ' + 'REPEAT/cut-takes-every-event; CONCAT/redundant-is-restating-the-predecessor.')
 EXPLANATION += (' Round 12: ' + 'ADJUST/map-applied-whatever-the-time; UNIFORM reads a nested one-return scaling helper.')
+EXPLANATION += (' Round 14: ' + 'UNIFORM/whatever-the-value (a shift guarded by a test of the field it moves).')
